@@ -70,6 +70,18 @@ PROPS = {
             'occurrence times after each restart are computed by the runner, not by echse',
         ],
     },
+    'C10': {
+        'engine': 'simp', 'profile': 'C10', 'level': 'exploration',
+        'rules': ['R-CHUNK', 'R-CRASHFREE'],
+        'gopts': {}, 'mopts': {},
+        'quick': {'budget': 50, 'runs': 100000}, 'thorough': {'budget': 900, 'runs': 10000000},
+        'assumptions': [
+            'the reference delivery is the same input handed over in one piece (as large as the reader loop\'s buffer allows) through the same reader loop',
+            'two reader loops are driven: the echsd socket loop (4 KiB pieces, empty push at end of stream) and the file/stdin loop shared by echsd reload, echsx and echsq',
+            'in mode x every piece lives in an exactly sized heap block that is freed after its pulls, so reading past a piece or keeping pointers into it is a sanitizer report',
+        ],
+        'technique': 'deterministic simulation of the transport: seeded and enumerated partitions of a byte stream fed through the real reader loops, metamorphic oracle against the one-piece delivery, sanitizers',
+    },
     'C06': {
         'engine': 'simd', 'profile': 'C06', 'level': 'fault_enumeration',
         'rules': ['R-SPOOL', 'R-DURABLE', 'R-CLEAN', 'R-SNAP', 'R-RESTART', 'R-ONCE', 'R-SPUR', 'R-LIST', 'R-CRASHFREE'],
@@ -125,6 +137,8 @@ def relevant(v, cfg):
 def replay_file(path, quiet=False):
     """replay a plan file; returns (reproduced, violations)"""
     doc = json.load(open(path))
+    if doc.get('engine') == 'simp':
+        return replay_simp(doc, path, quiet)
     plan = doc['plan']
     prop = doc.get('property', plan.get('property'))
     cfg = PROPS.get(prop, {})
@@ -144,6 +158,41 @@ def replay_file(path, quiet=False):
         if want:
             print('expected violation %r: %s' % (want, 'REPRODUCED' if hit else 'NOT reproduced'))
     return same and hit, res1
+
+
+def simp_module(doc):
+    if doc.get('kind') == 'c03':
+        from . import c03
+        return c03
+    from . import c10
+    return c10
+
+
+def replay_simp(doc, path, quiet=False):
+    mod = simp_module(doc)
+    v1 = mod.replay(doc)
+    v2 = mod.replay(doc)
+    want = doc.get('expect')
+    got1 = sorted(set(sig_of(v) for v in v1))
+    got2 = sorted(set(sig_of(v) for v in v2))
+    same = got1 == got2
+    hit = want is None or want in got1
+    if not quiet:
+        print('replay %s: property=%s deterministic=%s' % (path, doc.get('property'), same))
+        for v in v1:
+            print('   %-12s %-28s %s' % (v['rule'], v['sig'], v['detail'][:600]))
+        if want:
+            print('expected violation %r: %s' % (want, 'REPRODUCED' if hit else 'NOT reproduced'))
+    return same and hit, {'viol': v1, 'hash': ''}
+
+
+def write_replay_doc(prop, doc):
+    os.makedirs(REPLAYS, exist_ok=True)
+    h = hashlib.sha1(json.dumps(doc, sort_keys=True).encode()).hexdigest()[:12]
+    path = '%s/%s-%s-%s.json' % (REPLAYS, prop, doc['expect'].split()[0], h)
+    with open(path, 'w') as f:
+        json.dump(doc, f, indent=1)
+    return path
 
 
 def write_replay(prop, plan, v, mopts, tag):
@@ -211,6 +260,7 @@ def run_check(prop, tier, budget=None, runs=None, seed=None, workers=None, no_mi
     samples = []
     relax = 0
     nvariants = ncalls = nvfired = 0
+    simp_samples = []
     for res in engine.campaign(prop, cfg['profile'], base_seed, tier, budget, runs,
                                cfg.get('gopts'), cfg.get('mopts'), workers):
         n += 1
@@ -237,6 +287,11 @@ def run_check(prop, tier, budget=None, runs=None, seed=None, workers=None, no_mi
             nontrivial.add(res.get('plan_hash'))
         if len(samples) < 3 and st.get('spawns', 0) > 0:
             samples.append(res['seed'])
+        if cfg['engine'] == 'simp':
+            if res.get('nops', 0) > 1 and res.get('probes'):
+                nontrivial.add(res.get('plan_hash'))
+            if len(simp_samples) < 3 and res.get('sample'):
+                simp_samples.append(res['sample'])
         for v in res['viol']:
             if not relevant(v, cfg):
                 continue
@@ -249,6 +304,38 @@ def run_check(prop, tier, budget=None, runs=None, seed=None, workers=None, no_mi
     rc = 0
     out_viol = []
     for s, (sd, v) in sorted(viols.items()):
+        if cfg['engine'] == 'simp':
+            doc = {'property': prop, 'engine': 'simp', 'kind': cfg['profile'].lower(), 'expect': s,
+                   'detail': v['detail'], 'tag': 'seed=%d' % sd}
+            for k in ('input', 'loop', 'mode', 'sizes', 'sched', 'expected'):
+                if k in v:
+                    doc[k] = v[k]
+            mod = simp_module(doc)
+            a = mod.replay(doc)
+            b = mod.replay(doc)
+            if not any(sig_of(x) == s for x in a) or sorted(sig_of(x) for x in a) != sorted(sig_of(x) for x in b):
+                print('MACHINERY: violation %r of seed %d did not reproduce' % (s, sd))
+                rc = max(rc, 2)
+                continue
+            if not no_min and len(out_viol) < 6:
+                try:
+                    small = mod.minimise(doc, s)
+                    if any(sig_of(x) == s for x in mod.replay(small)):
+                        doc = small
+                except Exception:
+                    pass
+            path = write_replay_doc(prop, doc)
+            p = subprocess.run([sys.executable, VERIF + '/check', '--replay', path, '--quiet'],
+                               stdout=subprocess.PIPE, stderr=subprocess.STDOUT)
+            if p.returncode != 1:
+                print('MACHINERY: fresh-process replay of %s did not reproduce (rc %d)' % (path, p.returncode))
+                rc = max(rc, 2)
+                continue
+            print('VIOLATION property=%s replay=%s' % (prop, path))
+            print('  rule=%s sig=%s seed=%d: %s' % (v['rule'], v['sig'], sd, v['detail'][:300]))
+            out_viol.append(path)
+            rc = max(rc, 1)
+            continue
         plan = gen.gen(cfg['profile'], sd, tier, cfg.get('gopts'))
         r1 = engine.check_plan(plan, cfg.get('mopts'))
         r2 = engine.check_plan(plan, cfg.get('mopts'))
@@ -284,7 +371,10 @@ def run_check(prop, tier, budget=None, runs=None, seed=None, workers=None, no_mi
 
     # 4. evidence
     wall = time.time() - t0
-    sample_plans = [gen.gen(cfg['profile'], sd, tier, cfg.get('gopts')) for sd in samples[:2]]
+    if cfg['engine'] == 'simp':
+        sample_plans = simp_samples
+    else:
+        sample_plans = [gen.gen(cfg['profile'], sd, tier, cfg.get('gopts')) for sd in samples[:2]]
     for sp in sample_plans:
         for t in sp['tasks']:
             if len(t.get('occ', [])) > 12:
